@@ -1,13 +1,29 @@
 //! Verification harness for pest: drives the real implementation for the TLA+ conformance
 //! checks of /verif (see DESIGN.md).  `vh <subcommand> [--key value]...`
+mod c01;
+mod gen;
+mod peg;
 mod stack;
 mod util;
+
+/// Runs `f` on a thread with a 2 GB stack (deeply recursive grammars must not abort the harness).
+fn big_stack(f: impl FnOnce() + Send + 'static) {
+    std::thread::Builder::new()
+        .stack_size(2 << 30)
+        .spawn(f)
+        .unwrap()
+        .join()
+        .unwrap_or_else(|_| std::process::exit(3));
+}
 
 fn main() {
     let args: Vec<String> = std::env::args().collect();
     let sub = args.get(1).map(|s| s.as_str()).unwrap_or("");
     let rest = &args[1..];
+    let rest2: Vec<String> = rest.to_vec();
     match sub {
+        "c01-emit" => big_stack(move || c01::emit(&rest2)),
+        "c01-replay" => big_stack(move || c01::replay(&rest2)),
         "stack-replay" => stack::replay(rest),
         "stack-emit" => stack::emit(rest),
         _ => {
